@@ -23,17 +23,41 @@
 /* snapshots */
 static struct channel pre;
 static struct ulist preU[R];
+static struct channel outside_ref; /* shared state as of the last moment the lock was not held */
+static int have_ref, discipline_ok = 1;
 static void
 snapshot(void)
 {
     pre = ch;
+    outside_ref = ch;
+    have_ref = 1;
     for (unsigned i = 0; i < R; ++i)
         if (i < ch.holds.n) preU[i] = U(&ch, i);
 }
 
+/* Lock discipline: every change of the channel's shared fields happens while the channel lock is
+ * held.  This is the premise under which the schedule harnesses (block.c) may run the other
+ * side's operations atomically, and the reason a release of space or a refusal cannot fall
+ * between the writer's check and its sleep: a bookmark stored or a flag flipped AFTER the lock is
+ * released can (lost wake-up, C03). */
+static int
+same_shared(const struct channel* a, const struct channel* b)
+{
+    if (a->data != b->data || a->capacity != b->capacity || a->head != b->head || a->high != b->high || a->cycle != b->cycle || a->mapped != b->mapped ||
+        a->is_accepting_writes != b->is_accepting_writes || a->holds.n != b->holds.n)
+        return 0;
+    for (unsigned i = 0; i < 8; ++i)
+        if (a->holds.pos[i] != b->holds.pos[i] || a->holds.cycles[i] != b->holds.cycles[i]) return 0;
+    return 1;
+}
+static void
+check_discipline(void)
+{
+    VASSERT(discipline_ok && (!have_ref || same_shared(&ch, &outside_ref)), "C03: channel state changed outside the channel lock (a release of space or a refusal published without the lock can fall between the writer's check and its sleep)");
+}
 /* sync-model callbacks */
-void verif_on_lock_acquire(struct lock* l) { (void)l; }
-void verif_on_lock_release(struct lock* l) { (void)l; }
+void verif_on_lock_acquire(struct lock* l) { if (l == &ch.lock && have_ref && !same_shared(&ch, &outside_ref)) discipline_ok = 0; }
+void verif_on_lock_release(struct lock* l) { if (l == &ch.lock) { outside_ref = ch; have_ref = 1; } }
 void verif_on_notify(struct condition_variable* cv) { (void)cv; }
 static struct channel_reader obs; /* observer reader (write_map harness) */
 static int obs_on;
@@ -134,6 +158,7 @@ main(void)
 #endif
     uint8_t* r = channel_write_map(&ch, n);
     VASSERT(!verif_lock_is_held(&ch.lock), "lock left held");
+    check_discipline();
     if (r) {
         VASSERT(n < ch.capacity, "granted a request >= capacity");
         VASSERT(ch.is_accepting_writes || ch.holds.n == 0, "granted while refusing writes (with readers registered)");
@@ -171,6 +196,7 @@ main(void)
     VASSUME(wstate == W_MAPPED);
     channel_write_unmap(&ch);
     VASSERT(!verif_lock_is_held(&ch.lock), "lock left held");
+    check_discipline();
     VASSERT(inv_channel(&ch, W_IDLE), "INV broken by write_unmap");
     if (pre.is_accepting_writes) {
         VASSERT(ch.head == pre.mapped, "commit did not advance the cursor to the end of the region");
@@ -209,6 +235,7 @@ main(void)
     setup();
     channel_abort_write(&ch);
     VASSERT(!verif_lock_is_held(&ch.lock), "lock left held");
+    check_discipline();
     VASSERT(inv_channel(&ch, W_IDLE), "INV broken by abort_write");
     all_unchanged();
     VASSERT(ch.head == pre.head && ch.cycle == pre.cycle && ch.high == pre.high, "abort moved the cursor");
@@ -221,6 +248,7 @@ main(void)
     unsigned n0 = verif_notify_count;
     channel_accept_writes(&ch, tf);
     VASSERT(!verif_lock_is_held(&ch.lock), "lock left held");
+    check_discipline();
     VASSERT(ch.is_accepting_writes == tf, "flag not stored");
     VASSERT(inv_channel(&ch, wstate), "INV broken by accept_writes");
     all_unchanged();
@@ -240,6 +268,7 @@ main(void)
     unsigned n0 = verif_notify_count;
     struct slice s = channel_read_map(&ch, &rd);
     VASSERT(!verif_lock_is_held(&ch.lock), "lock left held");
+    check_discipline();
     VASSERT(rd.id >= 1 && rd.id <= ch.holds.n, "reader id out of range");
     unsigned j = rd.id - 1;
     VASSERT(rd.status == Channel_Ok, "read_map reported an error on a valid state");
@@ -300,6 +329,7 @@ main(void)
     unsigned n0 = verif_notify_count;
     channel_read_unmap(&ch, &rd, k);
     VASSERT(!verif_lock_is_held(&ch.lock), "lock left held");
+    check_discipline();
     writer_fields_unchanged();
     VASSERT(inv_channel(&ch, wstate), "INV broken by read_unmap");
     others_unchanged(j);
